@@ -53,9 +53,9 @@ func (r *ranker) rank(s string) int {
 }
 
 // ---- Coq literal helpers ----
-func coqZ(v int64) string  { return fmt.Sprintf("(%d)%%Z", v) }
-func coqN(v int) string    { return fmt.Sprintf("%d%%N", v) }
-func coqNat(v int) string  { return fmt.Sprintf("%d%%nat", v) }
+func coqZ(v int64) string { return fmt.Sprintf("(%d)%%Z", v) }
+func coqN(v int) string   { return fmt.Sprintf("%d%%N", v) }
+func coqNat(v int) string { return fmt.Sprintf("%d%%nat", v) }
 func coqBool(b bool) string {
 	if b {
 		return "true"
@@ -94,17 +94,18 @@ type monitorFailure struct {
 }
 
 type result struct {
-	Property   string                 `json:"property"`
-	Seed       int64                  `json:"seed"`
-	Tier       string                 `json:"tier"`
-	Evaluations int                   `json:"evaluations"`
-	Distinct   int                    `json:"distinct_nontrivial"`
-	Rule       string                 `json:"rule"`
-	Samples    []interface{}          `json:"samples"`
-	Stats      map[string]interface{} `json:"stats"`
-	Failures   []monitorFailure       `json:"failures"`
-	CaseFiles  []caseFile             `json:"case_files"`
-	ModelCases int                    `json:"model_cases"`
+	Property     string                 `json:"property"`
+	Seed         int64                  `json:"seed"`
+	Tier         string                 `json:"tier"`
+	Evaluations  int                    `json:"evaluations"`
+	Evaluations0 int                    `json:"-"`
+	Distinct     int                    `json:"distinct_nontrivial"`
+	Rule         string                 `json:"rule"`
+	Samples      []interface{}          `json:"samples"`
+	Stats        map[string]interface{} `json:"stats"`
+	Failures     []monitorFailure       `json:"failures"`
+	CaseFiles    []caseFile             `json:"case_files"`
+	ModelCases   int                    `json:"model_cases"`
 }
 
 // caseFile describes one generated Coq file: it defines, for each list, the cases, and prints
